@@ -414,6 +414,16 @@ class WorldJob(object):
                 miss = [rp for rp in sorted(have, key=str) if have[rp] > need.get(rp, 0)]
                 if miss:
                     self.probe('expected_target_not_visited')
+                    # not visiting a file is no violation by itself, but a pointed-at file that cannot be read, decoded or
+                    # parsed must stop the run with a non-zero status: it may not be skipped silently
+                    for rp in miss:
+                        if rp in ignore:
+                            continue
+                        res = self.model.visit(pre_f.get(rp) if rp is not None else None, self.kw, force)
+                        if res[0] == 'fail':
+                            self.vio('C15', 'R3', 'pointed-at file %s fails (%s) but was skipped: the run exited 0' % (rp, res[1]), run_desc,
+                                     key={'what': 'failing-input-skipped'})
+                            break
                 else:
                     info['complete'] = True
 
@@ -622,6 +632,10 @@ class WorldJob(object):
             plans = [[p] for p in self.enumerate_faults(rec)]
             self.stats['fault_space'] = len(plans)
             mp = spec.get('max_plans')
+            nv = max(1, self.stats.get('twin_visits', 1))
+            if mp and nv > 16:
+                # a symlink loop makes one execution visit the same files ~40 times: bound the work per world
+                mp = min(mp, max(6, (mp * 6) // nv))
             if mp and len(plans) > mp:
                 r = seeds.rng(spec.get('restart_seed', 0), 'plan-cap')
                 idx = sorted(r.sample(range(len(plans)), mp))
@@ -835,8 +849,8 @@ class WorldJob(object):
     def subprocess_check(self, env0, pre, rec, post, t0):
         """The same fault-free command as a real `python -m python_minifier` process with real pipes."""
         import subprocess
-        if t0.get('fail_at') is not None and len(t0.get('P') or []) > 1:
-            return      # outcome depends on the kernel's listing order
+        if t0.get('fail_at') is not None and len(self.V_pre or []) > 1:
+            return      # a failing file among several candidates: the outcome depends on the kernel's listing order
         self.fresh_tree()
         env = dict(os.environ)
         env.pop('PYMINIFY_FORCE_BEST_EFFORT', None)
